@@ -404,11 +404,22 @@ pub fn query_config(deps: Deps) -> StdResult<ConfigResponse> {
 }
 
 pub fn query_pair(deps: Deps, asset_infos: [AssetInfo; 2]) -> StdResult<PairInfo> {
-    let pair_key = pair_key(&[
+    let raw_infos = [
         asset_infos[0].to_raw(deps.api)?,
         asset_infos[1].to_raw(deps.api)?,
-    ]);
+    ];
+    let pair_key = pair_key(&raw_infos);
     let pair_info: PairInfoRaw = PAIRS.load(deps.storage, &pair_key)?;
+
+    // the key is the plain concatenation of the two sorted identifiers, which different
+    // asset sets can share: only answer with a record that is for the requested assets
+    let stored = &pair_info.asset_infos;
+    if !((stored[0].equal(&raw_infos[0]) && stored[1].equal(&raw_infos[1]))
+        || (stored[0].equal(&raw_infos[1]) && stored[1].equal(&raw_infos[0])))
+    {
+        return Err(StdError::not_found("pair_info"));
+    }
+
     pair_info.to_normal(deps.api)
 }
 
